@@ -367,14 +367,22 @@ def run_gwf(
     utime_delay=0.0,
     pty_stdout=False,
     workdir=None,
+    interact=None,
 ):
-    """Run `gwf <args>` as a forked child.  env: full environment for the child."""
+    """Run `gwf <args>` as a forked child.  env: full environment for the child.
+    interact = {"wait_for": text, "then": callable, "answer": "y\\n"}: stdin is a FIFO; once `text` has appeared on
+    the child's stdout the callable runs (the world changes while gwf waits at its prompt), then the answer is sent."""
     import tempfile
 
     tmpd = tempfile.mkdtemp(prefix="gwfrun-", dir=workdir)
     outp, errp, audp, inp = (os.path.join(tmpd, n) for n in ("out", "err", "audit", "in"))
-    with open(inp, "w") as f:
-        f.write(stdin or "")
+    ifd = None
+    if interact:
+        os.mkfifo(inp)
+        ifd = os.open(inp, os.O_RDWR | os.O_NONBLOCK)  # never blocks; keeps the FIFO open until we answer
+    else:
+        with open(inp, "w") as f:
+            f.write(stdin or "")
     sys.stdout.flush()
     sys.stderr.flush()
     master = slave = None
@@ -461,7 +469,22 @@ def run_gwf(
     timed_out = False
     rc = None
     deadline = t0 + timeout
+    answered = False
     while True:
+        if ifd is not None and not answered:
+            try:
+                with open(outp, errors="replace") as fh:
+                    seen = interact["wait_for"] in fh.read()
+            except FileNotFoundError:
+                seen = False
+            if seen:
+                answered = True
+                try:
+                    interact["then"]()
+                finally:
+                    os.write(ifd, interact.get("answer", "").encode())
+                    os.close(ifd)  # the only writer: the child reads the answer, then end-of-file
+                    ifd = None
         if master is not None:
             import select
 
@@ -519,8 +542,12 @@ def run_gwf(
             events.append(json.loads(ln))
         except ValueError:
             pass
+    if ifd is not None:
+        os.close(ifd)
     subprocess.call(["rm", "-rf", tmpd])
-    return GwfResult(rc, out, err, events, time.time() - t0, timed_out)
+    res_ = GwfResult(rc, out, err, events, time.time() - t0, timed_out)
+    res_.prompt_seen = answered
+    return res_
 
 
 def run_gwf_real(args, cwd, env, stdin=None, timeout=120):
